@@ -7,6 +7,8 @@ package chacha20poly1305
 import (
 	"crypto/subtle"
 
+	"golang.org/x/crypto/chacha20"
+	"golang.org/x/crypto/internal/alias"
 	"golang.org/x/crypto/internal/poly1305"
 	"golang.org/x/crypto/internal/verifrt"
 )
@@ -26,6 +28,15 @@ var (
 	vMacKey   [32]byte
 	vMacMsg   []byte
 	vMacFinal bool
+
+	// vMacIdeal (C02 forgery game): Sum logs the (key, message, tag) it produced; Verify
+	// accepts exactly that triple and nothing else (ideal one-time MAC with a sealing oracle
+	// that is queried once).
+	vMacIdeal bool
+	vLogHave  bool
+	vLogKey   [32]byte
+	vLogMsg   []byte
+	vLogTag   [16]byte
 )
 
 func vMacAbstract() bool { return verifrt.Symbolic() && !vMacReal }
@@ -60,6 +71,10 @@ func stubPolySum(h *poly1305.MAC, b []byte) []byte {
 	}
 	vMacFinal = true
 	t := vRefMAC(&vMacKey, vMacMsg)
+	if vMacIdeal {
+		vLogHave, vLogKey, vLogTag = true, vMacKey, t
+		vLogMsg = append([]byte{}, vMacMsg...)
+	}
 	return append(b, t[:]...)
 }
 
@@ -69,6 +84,24 @@ func stubPolyVerify(h *poly1305.MAC, expected []byte) bool {
 		return h.Verify(expected)
 	}
 	vMacFinal = true
+	if vMacIdeal {
+		// ideal one-time MAC: only the (key, message, tag) triple produced by the sealing
+		// oracle verifies
+		if !vLogHave || len(vMacMsg) != len(vLogMsg) || len(expected) != 16 {
+			return false
+		}
+		d := byte(0)
+		for i := range vLogKey {
+			d |= vLogKey[i] ^ vMacKey[i]
+		}
+		for i := range vLogMsg {
+			d |= vLogMsg[i] ^ vMacMsg[i]
+		}
+		for i := range vLogTag {
+			d |= vLogTag[i] ^ expected[i]
+		}
+		return d == 0
+	}
 	t := vRefMAC(&vMacKey, vMacMsg)
 	return subtle.ConstantTimeCompare(expected, t[:]) == 1
 }
@@ -82,6 +115,91 @@ func vRefMAC(key *[32]byte, msg []byte) [16]byte {
 	}
 	poly1305.Sum(&out, msg, key)
 	return out
+}
+
+// ---- optional ChaCha20 abstraction (C02 / C53 harnesses) ------------------------------------------
+//
+// With vChaAbstract set, the engine replaces the chacha20.Cipher used by seal/open by a
+// model whose keystream block is the uninterpreted function "chacha20block"(key, counter,
+// nonce) (and HChaCha20 by UF "hchacha20"); the reference functions vBlock / vHChaCha20 use
+// the same UFs. This keeps the authentication obligations (which bytes are MACed under which
+// key, what is written where) free of 20-round ARX terms. The ChaCha20 arithmetic and the
+// real Cipher state machine are covered by C01 (real code here) and C03. seal/open use one
+// Cipher at a time, so the model state is a single global. Natively the real code runs.
+
+var (
+	vChaAbstract bool
+	vChaKey      []byte
+	vChaNonce    []byte
+	vChaPos      uint64 // absolute keystream byte position (64 * block counter + offset)
+)
+
+func vChaAbs() bool { return verifrt.Symbolic() && vChaAbstract }
+
+//verif:stub golang.org/x/crypto/chacha20.NewUnauthenticatedCipher
+func stubChaNew(key, nonce []byte) (*chacha20.Cipher, error) {
+	if !vChaAbs() {
+		return chacha20.NewUnauthenticatedCipher(key, nonce)
+	}
+	if len(key) != 32 || len(nonce) != 12 {
+		panic("verif: abstract ChaCha20 model supports 32-byte keys and 12-byte nonces only")
+	}
+	vChaKey = append([]byte{}, key...)
+	vChaNonce = append([]byte{}, nonce...)
+	vChaPos = 0
+	return new(chacha20.Cipher), nil
+}
+
+//verif:stub (*golang.org/x/crypto/chacha20.Cipher).SetCounter
+func stubChaSetCounter(s *chacha20.Cipher, counter uint32) {
+	if !vChaAbs() {
+		s.SetCounter(counter)
+		return
+	}
+	if uint64(counter) < (vChaPos+63)/64 {
+		panic("chacha20: SetCounter attempted to rollback counter")
+	}
+	vChaPos = 64 * uint64(counter)
+}
+
+//verif:stub (*golang.org/x/crypto/chacha20.Cipher).XORKeyStream
+func stubChaXOR(s *chacha20.Cipher, dst, src []byte) {
+	if !vChaAbs() {
+		s.XORKeyStream(dst, src)
+		return
+	}
+	if len(src) == 0 {
+		return
+	}
+	if len(dst) < len(src) {
+		panic("chacha20: output smaller than input")
+	}
+	dst = dst[:len(src)]
+	if alias.InexactOverlap(dst, src) {
+		panic("chacha20: invalid buffer overlap")
+	}
+	var ks [64]byte
+	have := false
+	for i := range src {
+		p := vChaPos + uint64(i)
+		if !have || p%64 == 0 {
+			ks = vBlock(vChaKey, uint32(p/64), vChaNonce)
+			have = true
+		}
+		dst[i] = src[i] ^ ks[p%64]
+	}
+	vChaPos += uint64(len(src))
+}
+
+//verif:stub golang.org/x/crypto/chacha20.HChaCha20
+func stubHChaCha20(key, nonce []byte) ([]byte, error) {
+	if !vChaAbs() {
+		return chacha20.HChaCha20(key, nonce)
+	}
+	if len(key) != 32 || len(nonce) != 16 {
+		panic("verif: abstract HChaCha20 model supports 32/16 byte inputs only")
+	}
+	return vHChaCha20(key, nonce), nil
 }
 
 // ---- RFC 8439 reference (written from the RFC text) -------------------------------------------
@@ -122,6 +240,12 @@ func vLE32(b []byte) uint32 {
 
 // vBlock is chacha20_block(key, counter, nonce) of RFC 8439 section 2.3 (32-byte key, 12-byte nonce).
 func vBlock(key []byte, counter uint32, nonce []byte) [64]byte {
+	if vChaAbs() {
+		var out [64]byte
+		ctr := []byte{byte(counter), byte(counter >> 8), byte(counter >> 16), byte(counter >> 24)}
+		copy(out[:], verifrt.UFBytes("chacha20block", 64, key[:32], ctr, nonce[:12]))
+		return out
+	}
 	var init [16]uint32
 	init[0], init[1], init[2], init[3] = 0x61707865, 0x3320646e, 0x79622d32, 0x6b206574
 	for i := 0; i < 8; i++ {
@@ -146,6 +270,9 @@ func vBlock(key []byte, counter uint32, nonce []byte) [64]byte {
 
 // vHChaCha20 is HChaCha20(key, nonce16) of draft-irtf-cfrg-xchacha-01 section 2.2.
 func vHChaCha20(key, nonce []byte) []byte {
+	if vChaAbs() {
+		return verifrt.UFBytes("hchacha20", 32, key[:32], nonce[:16])
+	}
 	var st [16]uint32
 	st[0], st[1], st[2], st[3] = 0x61707865, 0x3320646e, 0x79622d32, 0x6b206574
 	for i := 0; i < 8; i++ {
